@@ -32,6 +32,16 @@ impl<'a> GeneratorState<'a> {
         pos: usize,
         high_byte: bool,
     ) -> Result<ExprType, Error> {
+        match right {
+            // The value of a void function
+            ExprType::Nothing => {
+                return Err(self
+                    .compiler_state
+                    .syntax_error("Can't assign void to variable", pos))
+            }
+            ExprType::Label(_) => return Err(self.compiler_state.syntax_error("Syntax error", pos)),
+            _ => (),
+        }
         match left {
             ExprType::X => match right {
                 ExprType::Immediate(i) => {
